@@ -120,7 +120,8 @@ def describe(f):
     if len(body) >= 2 and isinstance(body[-1], ast.Return) and isinstance(body[-1].value, ast.Name) and isinstance(body[-2], ast.Assign) and len(body[-2].targets) == 1 \
             and isinstance(body[-2].targets[0], ast.Name) and body[-2].targets[0].id == body[-1].value.id:
         ret_temp = body[-1].value.id
-    return {"ifs": ifs, "ifexps": sorted(ifexps), "growth": {k: sorted(v) for k, v in growth.items()}, "ret_temp": ret_temp, "for_iters": for_iters}
+    return {"ifs": ifs, "ifexps": sorted(ifexps), "growth": {k: sorted(v) for k, v in growth.items()}, "ret_temp": ret_temp, "for_iters": for_iters,
+            "has_while": any(isinstance(n, ast.While) for n in own_nodes(f))}
 
 
 # ------------------------------------------------------------------------------------------------ 1. helpers
@@ -861,6 +862,24 @@ def normalise_loops(f, r):
                 i += 1
                 continue
             it = st.iter
+            # for v in range(0, N, b): BODY   ->   v = 0; while v < N: BODY; v += b      (b > 0: a range with a non-positive step yields nothing or raises;
+            # N and b are not changed by BODY; BODY has no `continue`, which would skip the step of the while form)
+            if isinstance(it, ast.Call) and isinstance(it.func, ast.Name) and it.func.id == "range" and len(it.args) == 3 and not it.keywords and isinstance(st.target, ast.Name) \
+                    and isinstance(it.args[0], ast.Constant) and it.args[0].value == 0 and not any(isinstance(n, ast.Continue) for n in ast.walk(st)) \
+                    and r.get("has_while"):
+                v = st.target.id
+                stored = {n.id for b_ in st.body for n in ast.walk(b_) if isinstance(n, ast.Name) and isinstance(n.ctx, ast.Store)}
+                used = {n.id for a_ in it.args[1:] for n in ast.walk(a_) if isinstance(n, ast.Name)}
+                if v not in stored and not (stored & used) and all(_pure(a_) for a_ in it.args[1:]):
+                    mk = lambda node: ast.copy_location(node, st)
+                    init = mk(ast.Assign(targets=[mk(ast.Name(id=v, ctx=ast.Store()))], value=mk(ast.Constant(value=0)), lineno=st.lineno))
+                    step = mk(ast.AugAssign(target=mk(ast.Name(id=v, ctx=ast.Store())), op=ast.Add(), value=copy.deepcopy(it.args[2])))
+                    loop = mk(ast.While(test=mk(ast.Compare(left=mk(ast.Name(id=v, ctx=ast.Load())), ops=[ast.Lt()], comparators=[copy.deepcopy(it.args[1])])),
+                                        body=list(st.body) + [step], orelse=[]))
+                    block[i:i + 1] = [init, loop]
+                    log.append(("range(0, N, b)->while", st.lineno))
+                    i += 2
+                    continue
             enum = isinstance(it, ast.Call) and isinstance(it.func, ast.Name) and it.func.id == "enumerate" and len(it.args) == 1 and not it.keywords
             seq = it.args[0] if enum else it
             tnames = [n.id for n in ast.walk(st.target) if isinstance(n, ast.Name)]
